@@ -74,19 +74,19 @@ type vWorld struct {
 	cacheFaults int
 	legacy      bool
 
-	faults  int // remaining fault budget
-	crashes int // remaining crash budget
-	armed   bool
-	insts   int
-	clockMode int // 0 arbitrary, 1 strictly increasing
-	lastClock int64
+	faults           int // remaining fault budget
+	crashes          int // remaining crash budget
+	armed            bool
+	insts            int
+	clockMode        int // 0 arbitrary, 1 strictly increasing
+	lastClock        int64
 	skipStorageCheck bool
-	tolerant  bool // tampering scenarios: immutability / discard monitors are off
-	poolSize  int
-	curOp     string
-	armedClock bool // clock readings are symbolic (after the pre-state has been built)
-	faultOnly string // restrict faults to operations with this name
-	parseFailOdd bool // certificates whose first byte is odd do not parse (names tile)
+	tolerant         bool // tampering scenarios: immutability / discard monitors are off
+	poolSize         int
+	curOp            string
+	armedClock       bool   // clock readings are symbolic (after the pre-state has been built)
+	faultOnly        string // restrict faults to operations with this name
+	parseFailOdd     bool   // certificates whose first byte is odd do not parse (names tile)
 
 	onStep func(inst *vInstance, op, key string) // scheduler hook at every storage/lock operation
 	tamper func(key string, data []byte, found bool) ([]byte, bool)
